@@ -43,7 +43,7 @@ func C08(ctx *Ctx) {
 	R.Explanation = "Step of both interpreters is abstractly interpreted in 256 opcodes x M,X,E x {no interrupt, each pending interrupt} cells with every other register, flag and memory byte symbolic. Each bus access event carries the interval of its address and of the dispatch-table index that selects the backend: the index must stay below 2^20 (address <= $FFFFFF) by interval arithmetic over type widths, shifts, masks and adds. No panic / fatal / possibly-out-of-range array index / imprecise step may be live in any cell (the nil-backend arms are excluded by the hypothesis 'whole bus mapped')."
 	R.Trusted = []string{"go/packages + go/ssa (x/tools v0.29.0)", "absint interval transfer functions", "flag bytes N V M X D I Z C E hold 0 or 1 (obligation flags01 of C01)", "memory back ends behind the bus are outside the hypothesis' boundary", "user callbacks (OnPC/OnWDM) do not panic"}
 	R.Rule("index", "every bus access of every Step cell uses a dispatch-table index whose interval is below 2^20, i.e. an address below 2^24")
-	R.Rule("no-panic", "no panic, log.Fatal, possibly-out-of-range index or uninterpretable step is live in any Step cell; every cell returns")
+	R.Rule("no-panic", "no panic, log.Fatal, possibly-out-of-range index, call through a possibly-nil callback or uninterpretable step is live in any Step cell; every cell returns")
 	R.Exhaustive = true
 	sw := cpuSweep(ctx)
 	R.Floor("cpu-cells", 2*6144)
@@ -66,6 +66,7 @@ func C08(ctx *Ctx) {
 		bad := map[string]*agg{}
 		okSites := map[string]*agg{}
 		panics := map[string]*agg{}
+		nCallbacks := 0
 		for _, r := range sw.Results[rel] {
 			for _, a := range r.Accesses {
 				ord := 0
@@ -115,6 +116,26 @@ func C08(ctx *Ctx) {
 					note(e.Kind, relShort(rel)+":"+fnShort(e.Fn), ctx.Prog.Pos(e.Pos))
 				case "index-range":
 					note("index-range", relShort(rel)+":"+fnShort(e.Fn)+":"+e.Callee, ctx.Prog.Pos(e.Pos))
+				case "callback":
+					// a call through a function value the user may have left unset: the path must have
+					// found it non-nil (or found it in a map of callbacks)
+					if e.Method != "" {
+						break // interface method call: not a func value
+					}
+					nCallbacks++
+					ck := strings.TrimPrefix(e.Callee, "top:")
+					tested := false
+					for _, g := range e.PathL {
+						if g.Key == "isnil:"+ck && !g.Outcome {
+							tested = true
+						}
+						if strings.HasSuffix(g.Key, ".ok") && g.Outcome && strings.Contains(ck, strings.TrimSuffix(g.Key, ".ok")) {
+							tested = true
+						}
+					}
+					if !tested {
+						note("nil-call", relShort(rel)+":"+fnShort(e.Fn)+":"+ck, ctx.Prog.Pos(e.Pos))
+					}
 				}
 			}
 			for _, im := range r.Imprec {
@@ -143,6 +164,7 @@ func C08(ctx *Ctx) {
 			g := okSites[k]
 			R.Add("index", k, g.pos, true, fmt.Sprintf("%d access events over opcodes %s: index < 2^20", g.n, opSet(g.ops)), nil)
 		}
+		R.Count("callback-calls:"+relShort(rel), nCallbacks)
 		for _, k := range keys(panics) {
 			g := panics[k]
 			R.Fail("no-panic", k, g.pos, fmt.Sprintf("live in cells of opcodes %s (e.g. %s)", opSet(g.ops), g.ex))
